@@ -120,6 +120,14 @@ Theorem C13_workers_do_not_change_multiset : forall (R : Type) (gen_op : N -> N 
 Proof. exact (@workers_do_not_change_multiset). Qed.
 Print Assumptions C13_workers_do_not_change_multiset.
 
+(* the part of that hypothesis that can be read off the source holds today: the generated plan has no SharedState site
+   (worker_task keeps no local across operations, get_strategy_kwargs mutates only what it created, no module-level mutable
+   state in the unit phase, one shared operations iterator under the lock) *)
+Theorem C13_no_cross_operation_state :
+  existsb (has_kind SharedState) gen_sites = false /\ forall x, ambient_kind_active SharedState gen_sites x = false.
+Proof. split. exact no_cross_operation_state. exact no_cross_operation_state_ctx. Qed.
+Print Assumptions C13_no_cross_operation_state.
+
 (* REFUTED without that hypothesis (finding F6: Hypothesis keeps a process-global pool of constants harvested from the local
    modules in sys.modules; schemathesis imports modules lazily, so what one worker has imported changes what another draws) *)
 Theorem C13_workers_shared_state_refuted :
